@@ -33,12 +33,27 @@ fn arg_val(args: &[String], name: &str) -> Option<String> {
     args.iter().position(|a| a == name).and_then(|i| args.get(i + 1).cloned())
 }
 
+/// The process may have been started with signals ignored or blocked (a background job of a
+/// non-interactive shell has SIGINT and SIGQUIT ignored, nohup ignores SIGHUP, a supervisor may
+/// block or ignore SIGCHLD): the real-fork bridge and the conformance table need the defaults.
+fn sane_signals() {
+    unsafe {
+        for sig in [libc::SIGCHLD, libc::SIGINT, libc::SIGQUIT, libc::SIGTERM, libc::SIGALRM, libc::SIGUSR1, libc::SIGUSR2] {
+            libc::signal(sig, libc::SIG_DFL);
+        }
+        let mut set: libc::sigset_t = std::mem::zeroed();
+        libc::sigemptyset(&mut set);
+        libc::sigprocmask(libc::SIG_SETMASK, &set, std::ptr::null_mut());
+    }
+}
+
 fn main() {
     let args: Vec<String> = std::env::args().collect();
     if args.len() < 2 {
         eprintln!("usage: subsim worker|replay|one|plan ...");
         std::process::exit(2);
     }
+    sane_signals();
     api::install_panic_hook();
     if args.iter().any(|a| a == "--thorough") {
         plan::THOROUGH.store(true, std::sync::atomic::Ordering::Relaxed);
